@@ -67,6 +67,10 @@ type expr struct {
 	// a field reference written by NAME (resolved by the implementation and, independently, by the Lean model)
 	named        bool
 	rview, rname string
+	// a scalar sub-query (number `sub` of the enclosing query, SQL text in subSQL)
+	scalar bool
+	sub    int
+	subSQL string
 }
 
 func (e expr) refText() string {
@@ -77,7 +81,9 @@ func (e expr) refText() string {
 }
 
 type cond struct {
-	op   string // cmp and or not isnull btw in truth
+	op   string // cmp and or not isnull btw in truth | exists insub anysub allsub (sub-query number `sub`)
+	sub    int
+	subSQL string
 	cop  string
 	neg  bool
 	a, b *cond
@@ -160,6 +166,9 @@ func lit(p value.Primary) string {
 }
 
 func sqlExpr(e expr, ll, rl []col) string {
+	if e.scalar {
+		return "(" + e.subSQL + ")"
+	}
 	if e.named {
 		return e.refText()
 	}
@@ -199,6 +208,14 @@ func sqlCond(c *cond, ll, rl []col) string {
 		return "(" + ex(0) + " " + not + "IN (" + strings.Join(ls, ", ") + "))"
 	case "truth":
 		return "(" + ex(0) + ")"
+	case "exists":
+		return "(EXISTS (" + c.subSQL + "))"
+	case "insub":
+		return "(" + ex(0) + " " + not + "IN (" + c.subSQL + "))"
+	case "anysub":
+		return "(" + ex(0) + " " + c.cop + " ANY (" + c.subSQL + "))"
+	case "allsub":
+		return "(" + ex(0) + " " + c.cop + " ALL (" + c.subSQL + "))"
 	}
 	panic("cond op")
 }
@@ -290,6 +307,9 @@ func (e *enc) val(p value.Primary) string {
 }
 
 func (e *enc) expr(x expr) []string {
+	if x.scalar {
+		return []string{"s", strconv.Itoa(x.sub)}
+	}
 	if x.named {
 		v := x.rview
 		if v == "" {
@@ -342,6 +362,16 @@ func (e *enc) cond(c *cond) []string {
 	case "truth":
 		out = append(out, "truth")
 		out = append(out, e.expr(c.e[0])...)
+	case "exists":
+		out = append(out, "ex", strconv.Itoa(c.sub))
+	case "insub":
+		out = append(out, "ins", b01(c.neg))
+		out = append(out, e.expr(c.e[0])...)
+		out = append(out, strconv.Itoa(c.sub))
+	case "anysub", "allsub":
+		out = append(out, map[string]string{"anysub": "anys", "allsub": "alls"}[c.op], c.cop)
+		out = append(out, e.expr(c.e[0])...)
+		out = append(out, strconv.Itoa(c.sub))
 	}
 	return out
 }
@@ -1364,6 +1394,10 @@ func run(seed int64, n int, dir string, _ []string) {
 	naturalMatrix(g, pr, o, n)
 	namedRefCases(g, pr, o, n)
 	nearIdenticalItemCases(g, pr, o, n)
+	subqueryCases(g, pr, o, n)
+	setOperatorCases(g, pr, o, n)
+	lateralModelCases(g, pr, o, n)
+	starExpansionCases(g, pr, o, n)
 	precedenceSessions(g, o, n)
 	lawStreams(g, pr, o, n)
 }
